@@ -10,11 +10,14 @@
   * `C09_check`: the cardinality checker accepts iff every table cell is respected and every child is permitted.
   * `C09_order`, `C09_revs`: section order = non-decreasing sections; revisions = valid calendar dates,
     strictly descending.
-  Argument lexers: after the repairs the code implements the RFC ABNF rules directly; the model's `argOK`
-  is that ABNF (so model = spec by definition) and is tied to the code by the exhaustive/edited probe stream.
+  * `C09_range_arg`, `C09_length_arg`: the range / length check of the model accepts exactly the texts of the ABNF
+    scanner of Spec.YRange (proved for every text in Proofs.YRangeLex), with the keywords on their sides.
+  The other argument lexers: after the repairs the code implements the RFC ABNF rules directly; the model's `argOK`
+  is that ABNF (model = spec by definition) and is tied to the code by the exhaustive/edited probe stream.
   Vendor vocabularies (configd:*, opd:*) are modelled as they are and excluded from the RFC comparison.
 -/
 import YV.Model.YCheck
+import YV.Proofs.YRangeLex
 import YV.Spec.YRfc
 import YV.Gen.Parse
 import YV.Gen.Status
@@ -58,11 +61,14 @@ def keywordsConform : Bool :=
 theorem C09_keywords : keywordsConform = true := by decide +kernel
 
 /-- what the table demands of the children of a statement of type `t`: every cell respected (a minimum of
-    one is met, a maximum of one is not exceeded) and every child permitted (extension statements always are) -/
+    one is met, a maximum of one is not exceeded) and every child permitted (extension statements always are,
+    those the package knows by name included), and a deviation has a deviate statement of some kind -/
 def SubstmtsOk (t : String) (kids : List String) : Prop :=
   (∀ c s e, (c, s, e) ∈ (YT.cardinalities.lookup t).getD [] →
       (s = "1" → ¬ count kids c = 0) ∧ (e = "1" → count kids c ≤ 1)) ∧
-  (∀ c ∈ kids, (c = "NodeUnknown" ∨ c = "NodeDataDef") ∨ ∃ s e, (c, s, e) ∈ (YT.cardinalities.lookup t).getD [])
+  (∀ c ∈ kids, (c = "NodeUnknown" ∨ c = "NodeDataDef" ∨ isPrefixedType c = true) ∨
+      ∃ s e, (c, s, e) ∈ (YT.cardinalities.lookup t).getD []) ∧
+  (t = "NodeDeviation" → ∃ c ∈ kids, isDeviateNode c = true)
 
 theorem C09_check (t : String) (kids : List String)
     (ht : ¬ (t = "NodeUnknown" ∨ t = "NodeRefine" ∨ isDeviateNode t = true)) :
@@ -72,22 +78,26 @@ theorem C09_check (t : String) (kids : List String)
     simp [ht.1, ht.2.1, ht.2.2]
   simp only [cardOK, h1, Bool.false_eq_true, ↓reduceIte, Bool.and_eq_true, List.all_eq_true, SubstmtsOk]
   constructor
-  · rintro ⟨ha, hb⟩
-    refine ⟨fun c s e hc => ?_, fun c hc => ?_⟩
+  · rintro ⟨⟨ha, hb⟩, hd⟩
+    refine ⟨fun c s e hc => ?_, fun c hc => ?_, fun htd => ?_⟩
     · have := ha (c, s, e) hc
       simp at this
       exact ⟨fun h => this.1.resolve_left (fun n => n h), fun h => this.2.resolve_left (fun n => n h)⟩
     · have := hb c hc
-      simpa using this
-  · rintro ⟨ha, hb⟩
-    refine ⟨fun cell hc => ?_, fun c hc => ?_⟩
+      simpa [or_assoc] using this
+    · simpa [htd] using hd
+  · rintro ⟨ha, hb, hd⟩
+    refine ⟨⟨fun cell hc => ?_, fun c hc => ?_⟩, ?_⟩
     · obtain ⟨c, s, e⟩ := cell
       have := ha c s e hc
       simp
       exact ⟨Classical.or_iff_not_imp_left.mpr (fun h => this.1 (Classical.not_not.mp h)),
              Classical.or_iff_not_imp_left.mpr (fun h => this.2 (Classical.not_not.mp h))⟩
     · have := hb c hc
-      simpa using this
+      simpa [or_assoc] using this
+    · by_cases htd : t = "NodeDeviation"
+      · simpa [htd] using hd htd
+      · simp [htd]
 
 /-- sections in order: header ≤ linkage ≤ meta ≤ revision ≤ body along the substatements (extensions ignored) -/
 def InOrder : Nat → List Nat → Prop
@@ -136,10 +146,33 @@ theorem C09_revs (prev : Option Nat) (ds : List Bytes) : revisionsOK prev ds = t
     | none => simp
     | some p => simp [and_assoc]
 
+/-- **C09 (range arguments).** The range check of the model (parse/arg.go: split at "|", split at "..", trim optsep off
+    every boundary — white space inside a boundary stays and makes it invalid) accepts exactly the texts of the RFC 6020
+    ABNF read as a scanner (`Spec.YRange`: optsep around "|" and ".." and nowhere else), with `min` only before and `max`
+    only after "..".  For every text. -/
+theorem C09_range_arg (s : Bytes) : argOK "RangeArg" s = (YS.rangeArgOK s && sidesOK s) := by
+  show rangeLikeOK numBoundaryOK s = _
+  rw [rangeLikeOK_eq numBoundaryOK numBoundaryOK_min numBoundaryOK_max, rangeArgOK_eq]
+
+/-- **C09 (length arguments).** the same for lengths: boundaries are non-negative integers below 2^64 -/
+theorem C09_length_arg (s : Bytes) : argOK "LengthArg" s = (YS.lengthArgOK s && sidesOK s) := by
+  show rangeLikeOK _ s = _
+  rw [rangeLikeOK_eq _ (by rw [msg_min]; decide) (by rw [msg_max]; decide), lengthArgOK_eq]
+  rfl
+
+/-! non-vacuity: blanks around the separators are optsep, blanks inside a number are not -/
+example : YS.rangeArgOK (msg "1 .. 5 | 7") = true ∧ YS.rangeArgOK (msg "1 0..20") = false ∧
+          YS.rangeArgOK (msg "1.5..2.5") = true ∧ YS.rangeArgOK (msg "m in..5") = false ∧
+          YS.lengthArgOK (msg "0..18446744073709551615") = true ∧ YS.lengthArgOK (msg "18446744073709551616") = false := by
+  decide +kernel
+
 /-- non-vacuity -/
 example : sectionsOK 0 ["NodeNamespace", "NodePrefix", "NodeImport", "NodeDescription", "NodeRevision", "NodeLeaf"] = true := by decide
 example : sectionsOK 0 ["NodeNamespace", "NodeLeaf", "NodeImport"] = false := by decide
 example : cardOK "NodeLeaf" ["NodeTyp", "NodeDescription"] = true ∧ cardOK "NodeLeaf" ["NodeDescription"] = false ∧
-          cardOK "NodeLeaf" ["NodeTyp", "NodeTyp"] = false ∧ cardOK "NodeLeaf" ["NodeTyp", "NodeKey"] = false := by decide
+          cardOK "NodeLeaf" ["NodeTyp", "NodeTyp"] = false ∧ cardOK "NodeLeaf" ["NodeTyp", "NodeKey"] = false := by decide +kernel
+example : cardOK "NodeLeaf" ["NodeTyp", "NodeConfigdHelp", "NodeOpdCommand"] = true ∧
+          cardOK "NodeDeviation" ["NodeDescription"] = false ∧ cardOK "NodeDeviation" ["NodeDeviateAdd", "NodeDeviateAdd"] = true := by
+  decide +kernel
 
 end YV.C09
